@@ -59,9 +59,10 @@ def make_rec():
             self.base = base
 
         def fit(self, X, y, sample_weight=None):
-            self.ids_ = numpy.array(X[:, 0], copy=True)
+            Xd = X.toarray() if hasattr(X, "toarray") else X
+            self.ids_ = numpy.array(numpy.asarray(Xd)[:, 0], copy=True)
             self.X_ref_ = X          # a base regressor may keep its training features (k-NN, kernel methods)
-            self.X_copy_ = numpy.array(X, copy=True)
+            self.X_copy_ = numpy.array(Xd, copy=True)
             self.y_ = numpy.array(y, copy=True)
             self.w_ = None if sample_weight is None else numpy.array(sample_weight, copy=True)
             inner = {"linear": LinearRegression, "tree": lambda: DecisionTreeRegressor(max_depth=3, random_state=0),
@@ -106,16 +107,19 @@ def run_case(case, ctx):
     Xk, yk = X.copy(), y.copy()
     # containers: targets / weights as pandas Series whose index is a permutation of the positions, X as a frame
     import pandas
-    cont = ["ndarray", "ndarray", "series-shuffled-index", "ndarray", "frame+series"][(case["sub"] // 5) % 5]
+    cont = ["ndarray", "ndarray", "series-shuffled-index", "ndarray", "frame+series", "csr-matrix"][(case["sub"] // 5) % 6]
     cfg["container"] = cont
     ctx.cls("container=" + cont)
     Xin, yin, win = X, y, w
-    if cont != "ndarray":
+    if cont not in ("ndarray", "csr-matrix"):
         ix = numpy.random.RandomState(case["sub"] % 1000 + 5).permutation(n)
         yin = pandas.Series(y, index=ix)
         win = None if w is None else pandas.Series(w, index=ix)
         if cont == "frame+series":
             Xin = pandas.DataFrame(X, columns=["id", "a", "b"], index=ix)
+    if cont == "csr-matrix":
+        import scipy.sparse
+        Xin, yin, win = scipy.sparse.csr_matrix(X), y, w
     from vrt import layouts
     lay = layouts.pick(case["sub"], 6)
     via = (case["sub"] // 3) % 4 == 0
@@ -192,12 +196,15 @@ def run_case(case, ctx):
     # what a member was given is still what it holds when fit returns (no buffer shared between members)
     ctx.hit("fit.members_keep_their_rows")
     for j, e in enumerate(ests):
-        if not numpy.array_equal(numpy.asarray(e.X_ref_), e.X_copy_):
+        ref_ = e.X_ref_.toarray() if hasattr(e.X_ref_, "toarray") else numpy.asarray(e.X_ref_)
+        if not numpy.array_equal(ref_, e.X_copy_):
             ctx.violation(K + "fit/member-features-overwritten", "the feature array given to member %d was overwritten "
                           "after its fit (a regressor that keeps its training features is left with rows of another "
                           "resample next to its own targets)" % j, cfg=cfg)
             break
-        if any(numpy.shares_memory(numpy.asarray(e.X_ref_), numpy.asarray(o.X_ref_)) for o in ests[:j]):
+        if not hasattr(e.X_ref_, "toarray") and any(
+                not hasattr(o.X_ref_, "toarray") and numpy.shares_memory(numpy.asarray(e.X_ref_), numpy.asarray(o.X_ref_))
+                for o in ests[:j]):
             ctx.violation(K + "fit/member-features-shared", "two members were given the same feature buffer", cfg=cfg)
             break
     ctx.check(numpy.array_equal(X, Xk) and numpy.array_equal(y, yk), K + "fit/input-modified",
@@ -290,6 +297,39 @@ def run_case(case, ctx):
             ctx.violation(K + "predict/sorted-differs/after-set_params", "predict_sorted changed after set_params",
                           cfg=cfg)
     ir.set_params(n_estimators=m)
+    # a base regressor that cannot take the weights of its rows (no sample_weight argument / refuses them with a
+    # TypeError): the weights given to fit are either used or the call is refused - never dropped silently
+    if w is not None and size_a > 0:
+        from sklearn.base import BaseEstimator as _BE, RegressorMixin as _RM
+
+        class NoWeights(_RM, _BE):
+            def fit(self, X, y):
+                self.got_ = "no-weights"
+                self.mean_ = float(numpy.mean(y))
+                return self
+
+            def predict(self, X):
+                return numpy.full(len(X), self.mean_)
+
+        class RefusesWeights(NoWeights):
+            def fit(self, X, y, sample_weight=None):
+                if sample_weight is not None:
+                    raise TypeError("this regressor does not support sample_weight")
+                return NoWeights.fit(self, X, y)
+
+        for Base in (NoWeights, RefusesWeights):
+            irw = IntervalRegressor(estimator=Base(), n_estimators=3, alpha=alpha)
+            try:
+                numpy.random.seed(3)
+                irw.fit(X, y, sample_weight=w)
+                refused = False
+            except Exception:
+                refused = True
+            ctx.hit("fit.weights_not_dropped")
+            if not refused:
+                ctx.violation(K + "fit/weights-silently-dropped", "fit(X, y, sample_weight=w) with a base regressor that "
+                              "cannot take weights (%s) succeeded: the members were trained on the drawn rows without "
+                              "their weights" % Base.__name__, cfg=cfg)
     if n >= 3 and m >= 2:
         ctx.nontriv(cfg)
     ctx.sample({"cfg": cfg, "draws": total, "distinct_rows_drawn": len(drawn),
